@@ -259,8 +259,14 @@ Definition sym_eq (a b : pv) : bool :=
   | PObj na ua ea, PObj nb ub eb => str_eqb na nb && N.eqb ua ub && eq (PDict true ea) (PDict true eb)
   | _, _ => false
   end.
-Definition op_eq (a b : pv) : bool := sym_eq a b.
-Definition op_ne (a b : pv) : bool := negb (op_eq a b).
+(* [same]: the two operands are one and the same Python object.
+   base.eq starts with `if left is right: return True`; Object.sym_eq with `self is other or ...`. *)
+Definition eq_top (same : bool) (a b : pv) : bool := same || eq a b.
+Definition ne_top (same : bool) (a b : pv) : bool := negb (eq_top same a b).
+(* Object.__eq__ / __ne__ (and __hash__, see op_hash below): symbolic when the class has use_symbolic_comparison, otherwise Python's
+   default (identity; the identity hash is not a value of this model) *)
+Definition op_eq (symcmp same : bool) (a b : pv) : bool := if symcmp then same || sym_eq a b else same.
+Definition op_ne (symcmp same : bool) (a b : pv) : bool := negb (op_eq symcmp same a b).
 
 (* ---------------------------------------------------------------------------------------------
    pg.hash: the pre-image handed to Python's hash().  Leaves are mapped to their ==-class
@@ -312,6 +318,9 @@ Fixpoint hpre (v : pv) : result hterm :=
       match hash_ents (map (fun kv => (fst kv, (is_missing (snd kv), hpre (snd kv)))) e) with
       | Ok hs => Ok (HNode (CObj name uid) [HNode CDict hs]) | Err e => Err e end
   end.
+
+(* Object.__hash__ *)
+Definition op_hash (symcmp : bool) (a : pv) : option (result hterm) := if symcmp then Some (hpre a) else None.
 
 Definition cls_eqb (c d : cls) : bool :=
   match c, d with
@@ -415,8 +424,9 @@ End WithTable.
    value ::= (0) MISSING | (1) None | (2 b) | (3 z) | (4 m e) | (5 str) | (6 sym (v ...)) list
            | (7 (v ...)) tuple | (8 sym ((key v) ...)) dict | (9 str ((key v) ...) uid) object
    key   ::= (0 str) | (1 z)
-   case  ::= (0 a b ops)   -> (eq ne lt gt (hash-a hash-b equal) ops?)   ops = 1: a is an instance of a class with
-                                                                           use_symbolic_comparison; also print ==, !=, hash()
+   case  ::= (0 a b ops same) -> (eq ne lt gt (hash-a hash-b equal) ops?)  same = 1: a and b are one Python object;
+                                  ops = 1: a is an instance of a class with use_symbolic_comparison: also print ==, !=, hash();
+                                  ops = 2: a is an instance of a class without it: also print ==, !=
            | (1 (v ...))   -> (0 (i ...)) | (1 err)                        sorted(): indices of the result
            | (2 v)         -> (rank-string hash-code)                      _type_order probe
    result bool ::= (0 b) | (1 err)      err ::= 1 TypeError | 2 RecursionError | 3 unmodelled *)
@@ -453,19 +463,24 @@ Definition e_res (r : result bool) : tr :=
   match r with Ok b => L [I 0%Z; ebool b] | Err e => L [I 1%Z; e_err e] end.
 Definition h_code (r : result hterm) : tr := match r with Ok _ => I 0%Z | Err e => e_err e end.
 
-Definition run_pair (a b : pv) (ops : bool) : tr :=
+Definition run_pair (a b : pv) (ops : Z) (same : bool) : tr :=
   let ha := hpre tbl a in
   let hb := hpre tbl b in
-  L [ ebool (eq a b); ebool (ne a b); e_res (lt tbl a b); e_res (gt tbl a b);
+  L [ ebool (eq_top same a b); ebool (ne_top same a b); e_res (lt tbl a b); e_res (gt tbl a b);
       L [h_code ha; h_code hb;
          ebool (match ha, hb with Ok x, Ok y => hterm_eqb x y | _, _ => false end)];
-      if ops then L [ebool (op_eq a b); ebool (op_ne a b); h_code ha] else L [] ].
+      match ops with
+      | 1%Z => L [ebool (op_eq true same a b); ebool (op_ne true same a b);
+                  match op_hash tbl true a with Some h => h_code h | None => I 7%Z end]
+      | 2%Z => L [ebool (op_eq false same a b); ebool (op_ne false same a b)]
+      | _ => L []
+      end ].
 
 Definition run (c : tr) : tr :=
   match c with
-  | L [I 0%Z; a; b; ops] =>
-      match d_pv 60 a, d_pv 60 b, dbool ops with
-      | Some a', Some b', Some o => run_pair a' b' o
+  | L [I 0%Z; a; b; I ops; same] =>
+      match d_pv 60 a, d_pv 60 b, dbool same with
+      | Some a', Some b', Some s => run_pair a' b' ops s
       | _, _, _ => ebad
       end
   | L [I 1%Z; L vs] =>
